@@ -472,7 +472,8 @@ Fixpoint mapM_o {A B} (f : A -> option (list rname * B)) (l : list A) : option (
   end.
 
 Definition NORM_FUEL : nat := 64.
-(** optimize_impl (optimize.rs:32-100); returns the rules used and the new tree *)
+(** optimize_impl (optimize.rs:32-120, with optimize_patterns / optimize_run / optimize_single);
+    returns the rules used (non-empty = the Rust function returns true) and the new tree *)
 Fixpoint opt_impl (fuel : nat) (lv : level) (single : bool) (n : node) {struct fuel} : option (list rname * node) :=
   match fuel with O => None | S fuel =>
   let orun (nodes : list node) (single : bool) : option (list rname * list node) :=
@@ -484,10 +485,19 @@ Fixpoint opt_impl (fuel : nat) (lv : level) (single : bool) (n : node) {struct f
   let oargs (args : list (sig * node)) : option (list rname * list (sig * node)) :=
     mapM_o (fun a => match opt_impl fuel lv true (snd a) with
                      | Some (u, x) => Some (u, (fst a, x)) | None => None end) args in
+  (* optimize_single (since commit 402368c): the patterns on the run [self]; the parts are
+     optimised again only if a pattern applied or optimising the parts changed something *)
   let osingle (self : node) (u : list rname) : option (list rname * node) :=
     if single then
-      match orun [self] false with
-      | Some (u', l) => Some (u ++ u', normalize NORM_FUEL (Run l)) | None => None end
+      match fix_rules fuel (rules_at lv) [self] with
+      | Some (u1, nodes1) =>
+          match u1, u with
+          | [], [] => Some ([], normalize NORM_FUEL (Run nodes1))
+          | _, _ =>
+              match mapM_o (opt_impl fuel lv false) nodes1 with
+              | Some (u2, r) => Some (u ++ u1 ++ u2, normalize NORM_FUEL (Run r)) | None => None end
+          end
+      | None => None end
     else Some (u, self) in
   match n with
   | Run nodes =>
